@@ -120,9 +120,11 @@ binop!(Mul, mul, *);
 impl Div for Q {
     type Output = Q;
     fn div(self, o: Q) -> Q {
+        // x / 0 = 0, as in Lean's `Rat` (the model's exact instantiation); the f64 runs are where a
+        // division by zero shows (inf / NaN and the crate's finiteness assertions)
         let d = get(o);
         if d.is_zero() {
-            panic!("qdivzero");
+            return Q::zero();
         }
         mk(get(self) / d)
     }
